@@ -86,6 +86,9 @@ def run(ctx: Ctx) -> None:
     ctx.rule("R8.1", "only the documented discarders lose text: t_ignore == CR, rule functions returning None are the #line/#warning branches, no rule rewrites t.value", minimum=4)
     ctx.ob("R8.1", "lexer:PlyLexer|t_ignore", lm.ignore == "\r", msg=f"t_ignore is {lm.ignore!r}: characters other than carriage return are dropped without a token", node=lm.cls, mod=lexmod, nontrivial=False)
     for r in lm.rules:
+        if r.discards:
+            ctx.ob("R8.1", f"lexer:PlyLexer.{r.name}|discarding string rule", False,
+                   msg=f"{r.name} = {r.regex!r} drops the text it matches without a token (PLY's t_ignore_ prefix): the token texts no longer reproduce the input, and a newline inside it is not counted", node=r.node, mod=lexmod)
         if r.kind != "fn":
             continue
         if "none" in r.exits:
@@ -201,6 +204,54 @@ def run(ctx: Ctx) -> None:
     # ------------------------------------------------------------------ R8.9 (bounds depend on the tier)
     _preferred_match(ctx, lm, thorough=ctx.tier == "thorough")
 
+    # ------------------------------------------------------------------ R8.10
+    _scan_loop(ctx, lm)
+
+
+def _scan_loop(ctx: Ctx, lm: LexModel) -> None:
+    """R8.10: the rule model (priority order, literal fallback) describes Lexer.token only if nothing in its scanning loop
+    hands out a token, or moves on in the text, before the master regular expression was tried at the current position.
+    Every `return` inside the loop and every store to the position is dominated by the head of the loop over `self.lexre`,
+    except the skip of ignored characters (a store under the test `<char> in <ignore set>` and nothing else)."""
+    ply = lm.ply
+    fn = ply.func("Lexer.token")
+    cfg = CFG(fn)
+    ctx.rule("R8.10", "Lexer.token: inside the scanning loop nothing is returned and the position is not moved before the master regular expression was tried there (only ignored characters are skipped)", minimum=4)
+    whiles = [n for n in cfg.nodes if n.kind == "test" and isinstance(n.loop, ast.While)]
+    fors = [n for n in cfg.nodes if n.kind == "test" and isinstance(n.loop, ast.For) and "lexre" in norm(n.loop.iter)]
+    if not whiles or len(fors) != 1:
+        raise AnalysisError("PLY anchor changed: Lexer.token scanning loop (one while loop around one loop over self.lexre)")
+    outer = whiles[0]
+    inside = {id(x) for x in ast.walk(outer.loop)}
+    head = fors[0]
+    # the local names of the ignore set
+    ign = {"self.lexignore"}
+    for st in walk_local(fn):
+        if isinstance(st, ast.Assign) and norm(st.value) == "self.lexignore":
+            ign |= {norm(t) for t in st.targets}
+    k = 0
+    for n in cfg.nodes:
+        if n.kind != "stmt" or n.stmt is None or id(n.stmt) not in inside:
+            continue
+        st = n.stmt
+        if isinstance(st, ast.Return):
+            k += 1
+            ok = cfg.dominates(head, n)
+            ctx.ob("R8.10", f"_ply.lex:Lexer.token|return #{k} `{short(st, 40)}`", ok,
+                   msg="a token is returned from the scanning loop on a path that never tried the master regular expression at this position: the rule priority order of the lexer (longer operators, literals, comments first) does not apply to it", node=st, mod=ply)
+        elif isinstance(st, (ast.Assign, ast.AugAssign)):
+            tg = st.targets if isinstance(st, ast.Assign) else [st.target]
+            if not any(norm(t) in ("lexpos", "self.lexpos") for t in tg):
+                continue
+            if cfg.dominates(head, n):
+                continue
+            deps = cfg.control_deps(n)
+            under_ignore = [d for d, lab in deps if d.cond is not None and isinstance(d.cond, ast.Compare) and len(d.cond.ops) == 1 and isinstance(d.cond.ops[0], ast.In)
+                            and norm(d.cond.comparators[0]) in ign and lab == "T"]
+            others = [d for d, lab in deps if d is not outer and d not in under_ignore]
+            ok = bool(under_ignore) and not others
+            ctx.ob("R8.10", f"_ply.lex:Lexer.token|position store `{short(st, 40)}` before the rules are tried", ok,
+                   msg="the position in the text is moved before the master regular expression was tried, under a test other than membership in the ignore set: text is skipped or split without a rule having matched it", node=st, mod=ply)
 
 RED_ALPHA = "0178afxXbBeEpPuUlL.+-'\"\\nz_ "
 
